@@ -149,10 +149,10 @@ Definition as_struct (p : rval) : list Z * list rval :=
 
 (* Ptr.Data(), Ptr.TextBytes() *)
 Definition data_bytes (p : rval) : list Z :=
-  match p with RPrim 8 bs => bs | _ => [] end.
+  match p with RPrim w bs => if w =? 8 then bs else [] | _ => [] end.
 Definition text_bytes (p : rval) : list Z :=
   match p with
-  | RPrim 8 bs => if last bs 1 =? 0 then removelast bs else []
+  | RPrim w bs => if (w =? 8) && (last bs 1 =? 0) then removelast bs else []
   | _ => []
   end.
 
